@@ -1,6 +1,6 @@
 SPECIFICATION Spec
 CONSTANTS N = 3
-  Walkers = {"resolve", "xref", "filters", "parents"}
+  Walkers = {"resolve", "xref", "filters", "parents", "navnode"}
   MaxDepth = 4
   MaxChain = 3
   StackCap = 12
@@ -13,6 +13,7 @@ CONSTANTS N = 3
   G_WALKDEPTH = FALSE
   G_FILTERTOP = TRUE
   FSTREAM = FALSE
+  G_NAVACC = TRUE
 INVARIANTS NoOverflow WorkBounded ChainBounded
 PROPERTY Termination
 CHECK_DEADLOCK FALSE
